@@ -1,7 +1,8 @@
 /-
   Demeter.Aave.Ops — the write operations of `AaveV3Market` (supply, change_collateral, withdraw, borrow,
   repay, `__sub_supply_amount`, `__sub_borrow_amount`) in the order the code performs its checks,
-  mutations and cache resets.
+  mutations and cache resets.  Consecutive assignments / `reset()` calls between which nothing can raise and
+  nothing is read are one `modify`.
 -/
 import Demeter.Aave.Views
 namespace Demeter.Aave
@@ -18,22 +19,6 @@ def setUpdated : M Unit := modify (fun s => { s with hasUpdate := true })
 /-- `_record_action` -/
 def record (a : Action) : M Unit := modify (fun s => { s with actions := s.actions ++ [a] })
 
-def resetSupAmt : M Unit := modify (fun s => { s with supAmtC := .fresh })
-def resetColl : M Unit := modify (fun s => { s with collC := .fresh })
-def resetSup : M Unit := modify (fun s => { s with supC := .fresh })
-def resetBorAmt : M Unit := modify (fun s => { s with borAmtC := .fresh })
-def resetBor : M Unit := modify (fun s => { s with borC := .fresh })
-
-/-- `self._supplies[tok] = info` / field assignment on the stored object -/
-def putSupply (tok : String) (info : SupplyInfo) : M Unit :=
-  modify (fun s => { s with supplies := AList.set s.supplies tok info })
-def delSupply (tok : String) : M Unit :=
-  modify (fun s => { s with supplies := AList.erase s.supplies tok })
-def putBorrow (tok : String) (info : BorrowInfo) : M Unit :=
-  modify (fun s => { s with borrows := AList.set s.borrows tok info })
-def delBorrow (tok : String) : M Unit :=
-  modify (fun s => { s with borrows := AList.erase s.borrows tok })
-
 /-- `broker.subtract_from_balance` (the broker's `allow_negative_balance` is False) -/
 def walletDebit (tok : String) (amount : Rat) : M Unit := fun s =>
   match Wallet.debit cx.toNumCtx s.wallet tok amount false with
@@ -45,23 +30,19 @@ def walletDebit (tok : String) (amount : Rat) : M Unit := fun s =>
 def walletCredit (tok : String) (amount : Rat) : M Unit :=
   modify (fun s => { s with wallet := Wallet.credit cx.toNumCtx s.wallet tok amount })
 
-/-- `try: m  finally: fin` -/
-def finally' {α : Type} (m : M α) (fin : M Unit) : M α := fun s =>
+/-- `try: m  finally: fin` for a `fin` that cannot raise -/
+def finally' {α : Type} (m : M α) (fin : St → St) : M α := fun s =>
   match m s with
-  | (r, s1) =>
-    match fin s1 with
-    | (.ok (), s2) => (r, s2)
-    | (.error e, s2) => (.error e, s2)
+  | (r, s1) => (r, fin s1)
 
-def lookupSupply (tok : String) : M SupplyInfo := do
-  let s ← get
-  ofRes (optRes (AList.get? s.supplies tok) .keySupply)
-
-def lookupBorrow (tok : String) : M BorrowInfo := do
-  let s ← get
-  ofRes (optRes (AList.get? s.borrows tok) .keyBorrow)
+def lookupSupply (tok : String) : M SupplyInfo := queryPos (fun sup _ => optRes (AList.get? sup tok) .keySupply)
+def lookupBorrow (tok : String) : M BorrowInfo := queryPos (fun _ bor => optRes (AList.get? bor tok) .keyBorrow)
 
 /-! ### supply -/
+
+/-- `_supplies[tok] = info` (new entry or `base_amount +=`) followed by the three `reset()`s of `supply` -/
+def commitSupply (tok : String) (info : SupplyInfo) : M Unit :=
+  modify (fun s => { s with supplies := AList.set s.supplies tok info, supAmtC := .fresh, supC := .fresh, collC := .fresh })
 
 /-- `supply(token, amount, collateral)` -/
 def supply (tok : String) (amount : Rat) (coll : Bool) : M Unit := do
@@ -73,8 +54,7 @@ def supply (tok : String) (amount : Rat) (coll : Bool) : M Unit := do
   else pure ()
   let st ← ofRes (env.statusOf tok)
   let poolAmt ← ofRes (divE cx amount st.liqIdx)
-  let s ← get
-  let old := AList.get? s.supplies tok
+  let old ← queryPos (fun sup _ => .ok (AList.get? sup tok))
   match old with
   | some info => require (info.coll == coll) .flagMismatch
   | none => pure ()
@@ -82,25 +62,26 @@ def supply (tok : String) (amount : Rat) (coll : Bool) : M Unit := do
   let info : SupplyInfo := match old with
     | some info => { info with base := cx.add info.base poolAmt }
     | none => { base := cx.add 0 poolAmt, coll := coll, beginIdx := st.liqIdx }
-  putSupply tok info
-  resetSupAmt; resetSup; resetColl
+  commitSupply tok info
   record (.supply tok amount coll (cx.mul info.base st.liqIdx))
   setUpdated
 
 /-! ### change_collateral -/
+
+/-- `_supplies[tok].collateral = c` + `_collaterals_amount_cache.reset()` + `_supplies_cache.reset()` -/
+def commitFlag (tok : String) (info : SupplyInfo) : M Unit :=
+  modify (fun s => { s with supplies := AList.set s.supplies tok info, collC := .fresh, supC := .fresh })
 
 def changeCollateral (tok : String) (coll : Bool) : M Unit := do
   guardOpen env
   let info ← lookupSupply tok
   if info.coll == coll then setUpdated
   else do
-    putSupply tok { info with coll := coll }
-    resetColl; resetSup
+    commitFlag tok { info with coll := coll }
     if !coll then do
       let hf ← healthFactor cx env
       if hf.ltR Gen.aaveHfThreshold then do
-        putSupply tok info
-        resetColl; resetSup
+        commitFlag tok info
         throw .hfLow
       else pure ()
     else pure ()
@@ -108,46 +89,51 @@ def changeCollateral (tok : String) (coll : Bool) : M Unit := do
 
 /-! ### `__sub_supply_amount`, `__sub_borrow_amount` -/
 
+/-- the assignments and resets of `__sub_supply_amount` once the new scaled balance `nb` is known -/
+def commitSubSupply (tok : String) (info : SupplyInfo) (nb : Rat) : M Unit :=
+  modify (fun s => { s with
+    supplies := if nb = 0 then AList.erase s.supplies tok else AList.set s.supplies tok { info with base := nb },
+    collC := if info.coll then .fresh else s.collC,
+    supAmtC := .fresh, supC := .fresh })
+
 def subSupplyAmount (tok : String) (amount : Rat) : M Rat := do
-  let s ← get
-  match AList.get? s.supplies tok with
+  let old ← queryPos (fun sup _ => .ok (AList.get? sup tok))
+  match old with
   | none => if amount = 0 then pure 0 else throw .subMissing
   | some info => do
     let st ← ofRes (env.statusOf tok)
     let d ← ofRes (divE cx amount st.liqIdx)
     let nb := subBase cx info.base d
-    putSupply tok { info with base := nb }
-    if info.coll then resetColl else pure ()
-    resetSupAmt; resetSup
-    if nb = 0 then do
-      if info.coll then resetColl else pure ()
-      delSupply tok
-      pure 0
-    else pure nb
+    commitSubSupply tok info nb
+    pure nb
+
+def commitSubBorrow (tok : String) (info : BorrowInfo) (nb : Rat) : M Unit :=
+  modify (fun s => { s with
+    borrows := if nb = 0 then AList.erase s.borrows tok else AList.set s.borrows tok { info with base := nb },
+    borAmtC := .fresh, borC := .fresh })
 
 def subBorrowAmount (tok : String) (amount : Rat) : M Rat := do
-  let s ← get
-  match AList.get? s.borrows tok with
+  let old ← queryPos (fun _ bor => .ok (AList.get? bor tok))
+  match old with
   | none => if amount = 0 then pure 0 else throw .subMissing
   | some info => do
     let st ← ofRes (env.statusOf tok)
     let d ← ofRes (divE cx amount st.varIdx)
     let nb := subBase cx info.base d
-    putBorrow tok { info with base := nb }
-    resetBorAmt; resetBor
-    if nb = 0 then do
-      delBorrow tok
-      pure 0
-    else pure nb
+    commitSubBorrow tok info nb
+    pure nb
 
 /-! ### withdraw -/
 
+/-- `base_amount = v` + `_supplies_amount_cache.reset()` + `_collaterals_amount_cache.reset()` -/
+def trialSet (tok : String) (info : SupplyInfo) (s : St) : St :=
+  { s with supplies := AList.set s.supplies tok info, supAmtC := .fresh, collC := .fresh }
+
 /-- the trial deduction of `withdraw`: health factor as it would be after the withdrawal; the deduction and
-    the two caches computed from it are undone whatever `health_factor` does -/
+    the two caches computed from it are undone whatever `health_factor` does (`try … finally`) -/
 def trialHealthFactor (tok : String) (info : SupplyInfo) (trialBase : Rat) : M XRat := do
-  putSupply tok { info with base := trialBase }
-  resetSupAmt; resetColl
-  finally' (healthFactor cx env) (do putSupply tok info; resetSupAmt; resetColl)
+  modify (trialSet tok { info with base := trialBase })
+  finally' (healthFactor cx env) (trialSet tok info)
 
 def withdraw (tok : String) (amount? : Option Rat) : M Unit := do
   guardOpen env
@@ -175,6 +161,12 @@ def divX (a : Rat) (b : XRat) : Res Rat :=
   | .inf => .ok 0
   | .fin r => divE cx a r
 
+/-- `_borrows[tok] = info` (new entry or `base_amount +=`), the wallet credit and the two `reset()`s of `borrow` -/
+def commitBorrow (tok : String) (info : BorrowInfo) (amount : Rat) : M Unit :=
+  modify (fun s => { s with borrows := AList.set s.borrows tok info,
+                            wallet := Wallet.credit cx.toNumCtx s.wallet tok amount,
+                            borAmtC := .fresh, borC := .fresh })
+
 def borrow (tok : String) (amount? : Option Rat) : M Unit := do
   guardOpen env
   let amount ← match amount? with
@@ -197,13 +189,11 @@ def borrow (tok : String) (amount? : Option Rat) : M Unit := do
   let needed ← ofRes (divX cx (cx.add (dsum cx ((vals bv).map (·.value))) value) ml)
   require (needed ≤ collBal) .cannotCover
   let base ← ofRes (divE cx amount st.varIdx)
-  let s ← get
-  let info : BorrowInfo := match AList.get? s.borrows tok with
+  let old ← queryPos (fun _ bor => .ok (AList.get? bor tok))
+  let info : BorrowInfo := match old with
     | some info => { info with base := cx.add info.base base }
     | none => { base := cx.add 0 base, beginIdx := st.varIdx }
-  putBorrow tok info
-  walletCredit cx tok amount
-  resetBorAmt; resetBor
+  commitBorrow cx tok info amount
   record (.borrow tok amount (cx.mul info.base st.varIdx))
   setUpdated
 
@@ -215,22 +205,24 @@ def swapAmount (fromTok toTok : String) (amount : Rat) : Res Rat := do
   let pt ← env.priceOf toTok
   divE cx (cx.mul (cx.mul amount 1) pf) pt
 
+/-- the `if repay_with_collateral:` block: checks, and the pay-back amount capped by the collateral held -/
+def repayCollateralCap (tok ctok : String) (amount0 : Rat) : M Rat := do
+  let sv ← suppliesView cx env
+  require (AList.contains sv ctok) .notSupplied
+  let sv ← suppliesView cx env
+  let c ← ofRes (optRes (AList.get? sv ctok) .keyCache)
+  require c.coll .notCollateral
+  let need ← ofRes (swapAmount cx env tok ctok amount0)
+  let sup ← getSupply cx env ctok
+  if need > sup.amount then ofRes (swapAmount cx env ctok tok sup.amount) else pure amount0
+
 def repay (tok : String) (amount? : Option Rat) (withColl : Bool) (collTok? : Option String) : M Unit := do
   guardOpen env
   let st ← ofRes (env.statusOf tok)
   let bv ← getBorrow cx env tok
   let amount0 := amount?.getD bv.amount
   let ctok := collTok?.getD tok
-  let payback ← if withColl then do
-      let sv ← suppliesView cx env
-      require (AList.contains sv ctok) .notSupplied
-      let sv ← suppliesView cx env
-      let c ← ofRes (optRes (AList.get? sv ctok) .keyCache)
-      require c.coll .notCollateral
-      let need ← ofRes (swapAmount cx env tok ctok amount0)
-      let sup ← getSupply cx env ctok
-      if need > sup.amount then ofRes (swapAmount cx env ctok tok sup.amount) else pure amount0
-    else pure amount0
+  let payback ← if withColl then repayCollateralCap cx env tok ctok amount0 else pure amount0
   let pbBase ← ofRes (divE cx payback st.varIdx)
   require (pbBase > 0) .zeroAmount
   let info ← lookupBorrow tok
